@@ -10,7 +10,8 @@ use std::time::{Duration, Instant};
 
 #[derive(Clone, Debug, PartialEq)]
 pub struct FileSpec {
-    /// path relative to the scenario root
+    /// path relative to the scenario root; `"a/link -> ../b/target"` makes `a/link` a symbolic
+    /// link with that target (bytes and mtime are ignored)
     pub rel: String,
     pub bytes: Vec<u8>,
     /// modification time in ns since the epoch (0 = whatever the kernel says)
@@ -29,6 +30,14 @@ pub struct Work {
     pub stall_retries: u64,
     /// violation classes this worker has already minimised (later ones are reported unminimised)
     pub seen: std::collections::BTreeSet<String>,
+    /// executions that spun until the full CPU budget (genuine hangs) seen by this worker
+    pub hangs_full_budget: u64,
+    /// executions classified as hangs at the short budget (only after `hangs_full_budget` >= 2)
+    pub hangs_short_budget: u64,
+    /// decide every hang at the full budget (set while a candidate violation is confirmed)
+    pub full_cpu_budget: bool,
+    /// use the short budget regardless (while a hang is being minimised)
+    pub short_cpu_budget: bool,
 }
 
 pub fn rm_rf(p: &Path) {
@@ -67,6 +76,10 @@ impl Work {
             exec_wall: Duration::ZERO,
             stall_retries: 0,
             seen: Default::default(),
+            hangs_full_budget: 0,
+            hangs_short_budget: 0,
+            full_cpu_budget: false,
+            short_cpu_budget: false,
         }
     }
 
@@ -86,6 +99,15 @@ impl Work {
     }
 
     pub fn write_file(&self, f: &FileSpec) {
+        if let Some((link, target)) = f.rel.split_once(" -> ") {
+            let p = Path::new(&self.root).join(link);
+            if let Some(d) = p.parent() {
+                let _ = std::fs::create_dir_all(d);
+            }
+            let _ = std::fs::remove_file(&p);
+            std::os::unix::fs::symlink(target, &p).expect("create scenario symlink");
+            return;
+        }
         let p = Path::new(&self.root).join(&f.rel);
         if let Some(d) = p.parent() {
             let _ = std::fs::create_dir_all(d);
@@ -122,6 +144,7 @@ impl Work {
             heap_seed: 0,
             memo: None,
             same_thread: false,
+            cpu_limit_s: None,
             steps: vec![],
         }
     }
@@ -129,11 +152,35 @@ impl Work {
     /// Run one simulated execution.
     ///
     /// Hangs are decided by CPU time, not wall time: the child limits itself with
-    /// RLIMIT_CPU (10 s + 0.25 s per command) and dies with SIGXCPU if it spins. The
+    /// RLIMIT_CPU (10 s of CPU per command) and dies with SIGXCPU if it spins. The
     /// wall-clock watchdog is only a backstop for a stalled host: on a wall timeout the run
     /// is retried with 3x and then 9x the budget, and if it still does not finish the result
     /// is "stalled" — a harness condition (exit 2), never a property violation.
+    ///
+    /// A code base that really hangs would make every affected execution cost the whole CPU
+    /// budget. Once this worker has seen two executions spin to the end of the FULL budget,
+    /// later executions get a short budget (2 s of CPU per command instead of 10 s, still
+    /// ~100x a normal command); one that exhausts it is classified as a hang without being run again. Every
+    /// violation is confirmed with `full_cpu_budget` set before it is reported, so a reported
+    /// hang has always exhausted the full budget.
     pub fn run(&mut self, req: &ExecReq) -> ExecOut {
+        if req.cpu_limit_s.is_none() && !self.full_cpu_budget && (self.hangs_full_budget >= 2 || self.short_cpu_budget) {
+            let mut short = req.clone();
+            short.cpu_limit_s = Some(2);
+            let out = self.run_inner(&short);
+            if out.end == "signal:24" {
+                self.hangs_short_budget += 1;
+            }
+            return out;
+        }
+        let out = self.run_inner(req);
+        if out.end == "signal:24" {
+            self.hangs_full_budget += 1;
+        }
+        out
+    }
+
+    fn run_inner(&mut self, req: &ExecReq) -> ExecOut {
         let budget = self.timeout + Duration::from_millis(250 * req.steps.len() as u64);
         let mut out = self.run_once(req, budget);
         let mut factor = 3;
